@@ -61,11 +61,18 @@ def make_endpoint(arg_name):
 
 
 def _impl(request, cookie):
-    before = dict(cookie)
+    before = json.loads(json.dumps(dict(cookie)))
     a = request.args
     act = a.get('act', 'read')
     if act == 'set':
         cookie[a['k']] = json.loads(a['v'])
+    elif act == 'push':
+        # the usual way to keep a list in a session: fetch it, change it, store it back (the SAME object)
+        lst = cookie.get(a['k'], [])
+        if not isinstance(lst, list):
+            lst = []
+        lst.append(json.loads(a['v']))
+        cookie[a['k']] = lst
     elif act == 'del':
         cookie.pop(a['k'], None)
     elif act == 'clear':
@@ -156,7 +163,7 @@ class C16(Check):
     level_text = ('Seeded search over client/clock/tamper histories with a token-registry oracle; the space is '
                   'unbounded (byte strings x times), so sampling with targeted boundary steps is the honest level.')
     level_note = 'Trusted: HMAC-SHA1 itself; the harness registry of issued tokens; simulated clock seams.'
-    required_probes = ('binary-secret-key', 'other-servers-token-presented', 'other-servers-token-presented-to-binary-keyed-server', 'server-not-in-utc', 'concurrent-clients', 'two-cookie-servers', 'expired-empty', 'valid-at-exact-expiry', 'tamper-empty', 'tamper-source-data',
+    required_probes = ('nested-value-changed-and-stored-back', 'binary-secret-key', 'other-servers-token-presented', 'other-servers-token-presented-to-binary-keyed-server', 'server-not-in-utc', 'concurrent-clients', 'two-cookie-servers', 'expired-empty', 'valid-at-exact-expiry', 'tamper-empty', 'tamper-source-data',
                        'cross-client-seen', 'replay-old-token', 'backward-jump-valid-again')
 
     def gen_config(self, rng):
@@ -208,7 +215,7 @@ class C16(Check):
                 ops.append(conc_op())
                 continue
             if i < nc or r < 0.35:
-                act = rng.choice(['set', 'set', 'set', 'del', 'read', 'read', 'clear'])
+                act = rng.choice(['set', 'set', 'set', 'del', 'read', 'read', 'clear', 'push', 'push'])
                 op = {'op': 'req', 'c': c, 'act': act, 'k': rng.choice(KEYS[:4] if rng.random() < 0.8 else KEYS),
                       'v': rng.choice(VALUES), 'jitter': []}
                 if erng.random() < 0.15:
@@ -433,9 +440,9 @@ class _State(object):
     def query(act, k, v):
         from urllib.parse import quote
         q = 'act=%s' % act
-        if act in ('set', 'del'):
+        if act in ('set', 'del', 'push'):
             q += '&k=%s' % quote(k)
-        if act == 'set':
+        if act in ('set', 'push'):
             q += '&v=%s' % quote(json.dumps(v))
         return q
 
@@ -512,6 +519,10 @@ class _State(object):
                     return
             # apply the op to what the endpoint actually saw -> new model
             new = dict(before)
+            if act == 'push':
+                new[k] = (list(new[k]) if isinstance(new.get(k), list) else []) + [v]
+                if isinstance(before.get(k), list):
+                    res.probe('nested-value-changed-and-stored-back')
             if act == 'set':
                 new[k] = v
             elif act == 'del':
